@@ -99,12 +99,21 @@ CHECKS['C08'] = dict(
    text='PARTIAL and BOUNDED (level "other"): one probe world, scalar (u32) functions, calls that complete in their first step. An async export receives the value a sync binding would lift and reports its result through task.return exactly once, after the user\'s work finished, canonically lowered, with no cancellation signal, answering EXIT and releasing the task; an async import that returns at once makes exactly one core call with the canonically lowered parameter and lifts the result from the results area, with no handle left to drop, cancel or wait on.',
    note='Not covered: string/list payloads (the harnesses exist but exceed CBMC\'s memory), pending calls (the runtime side is C21/C22), the cancellation signal of a dropped async export (function-local built-in, cannot be stubbed), owned handles. The generator is run with --runtime-path crate::rt and its output mounted in crates/guest-rust under a second cfg set only by this check.')
 
+CHECKS['C10'] = dict(
+   engine='cbmc', category='other', design_ref='DESIGN.md §9.14 C10/C11',
+   technique='CBMC (wasm32 data model) on the bindings the real C generator produces for a value probe world, the harness acting as the host at the core-ABI boundary with hand-written Canonical-ABI encodings',
+   text='PARTIAL and BOUNDED (level "other"): for ONE probe world, export direction. Every generated C export wrapper hands the user function exactly the value the host lowered and stores exactly the value the user returned at its canonical offsets (4-byte pointers): record, tuple, option, result, flags, enum and the numeric cases of a variant with a joined slot over their full domains; string, list<u32>, list<tuple<u8,u32,u8>>, the variant\'s string case and list<string> for bounded lengths.',
+   note='BOUNDED: list/string lengths 0..=2 (list<string>: <= 1 element of <= 1 byte); one probe world; imports, async and resources not driven. Minimal hand-written ILP32 libc headers (no 32-bit headers in the sandbox); host side hand-written from CanonicalABI.md.')
+CHECKS['C11'] = dict(
+   engine='cbmc', category='other', design_ref='DESIGN.md §9.14 C10/C11',
+   technique='CBMC (wasm32 data model, --pointer-check --bounds-check --memory-leak-check) on the same generated C: the allocator model decides leaks, double frees, use after free and out-of-bounds accesses',
+   text='PARTIAL and BOUNDED (level "other"): for string, list<u32>, list<tuple>, a variant with a string case and list<string> parameters and results of one probe world: after the export wrapper, the user function (which frees its arguments with the generated *_free helpers) and the generated post-return, nothing is leaked, nothing is freed twice, nothing is used after free or accessed out of bounds; post-return of the numeric variant cases frees nothing; the arguments of an import are passed without a copy, left untouched and remain the caller\'s to free.',
+   note='BOUNDED: lengths as C10. Not covered: an exported resource\'s destructor, free helpers of types outside the probe, async.')
+
 NOT_APPLICABLE = {
  'C01': 'shared ABI generator is generic over Bindgen/Resolve with closures and iterator adapters (outside the Verus subset); Kani did not finish one tuple<u8,u32> through the real generator in 15 min (DESIGN §5)',
  'C03': 'same functions as C01 (deallocate / deallocate_indirect over Resolve): outside both verifiers (DESIGN §5)',
  'C09': 'decided by rustc + the component encoder, not by a postcondition (DESIGN §5)',
- 'C10': 'as C05 for the C backend (DESIGN §5)',
- 'C11': 'as C06 for the C backend (DESIGN §5)',
  'C12': 'decided by clang + the component encoder (DESIGN §5)',
  'C13': 'whole-output property of seven string emitters against wit-component; no function boundary carries it (DESIGN §5)',
  'C15': 'two-run hyperproperty over hash seeds; contracts are single-run (DESIGN §5)',
@@ -156,6 +165,8 @@ def main():
              'kind_free_text': 'Verus 0.2026.09.13 on functions extracted verbatim from /repo each run with contracts spliced at anchors'},
             {'name': 'kani', 'path': 'vlib/kani.py', 'serves_properties': [p for p in CHECKS if CHECKS[p]['engine'] == 'kani'],
              'kind_free_text': 'Kani 0.68 / CBMC 6.11 contract harnesses mounted in-crate under --cfg bytecodealliance_wit_bindgen_verif'},
+            {'name': 'cbmc', 'path': 'vlib/cbmcrun.py', 'serves_properties': [p for p in CHECKS if CHECKS[p]['engine'] == 'cbmc'],
+             'kind_free_text': 'CBMC 6.11 directly on generated C text (wasm32 data model)'},
             {'name': 'exprvc', 'path': 'vlib/exprvc.py', 'serves_properties': [p for p in CHECKS if CHECKS[p]['engine'] == 'exprvc'],
              'kind_free_text': 'verification conditions over emitted conversion expressions (Kani for Rust text, CBMC for C text, z3 for the others)'},
         ],
